@@ -22,8 +22,184 @@ C10_STEAL (symns::Sym)
 C10_STEAL (double)
 C10_STEAL (float)
 #include "ops_c10.h"
+// Directed translator validation for the branching interpolation / log / exp trees (audit r2 N4): generic TV inputs rarely make
+// theta^2 < epsilon, hit r == 1 exactly or a zero-length combination, so the tiny-angle leaves were never compared with the real
+// code bit for bit.  Inputs are built for those leaves: q2 = q1 * (rotation by theta), theta in {0 exactly, 1e-9, 1e-5, 1e-3, generic,
+// ~pi, exactly -q1}, t in {0, 1e-9, 1/2, 1, 1 - 1e-9, 2, -0.1, 1e5}; keys of `intermediate` equal / within 1e-9 / mirrored about q1 /
+// generic / zero; log at r = 1, r > 1, r = -1, generic; exp at v = 0, denormal, tiny, generic, |v| >= 1.
+// Prints  TVDIR <entry> evals= failures= leaves_hit= paths=  (tools/props/c10.py obliges a floor per tree).
+namespace c10dir
+{
+using namespace symns;
+typedef std::mt19937_64 Rng;
+static double U (Rng& g) { return std::uniform_real_distribution<double> (-1.0, 1.0) (g); }
+struct Q { double r, x, y, z; };
+static Q qmul (const Q& a, const Q& b) { return Q{a.r * b.r - (a.x * b.x + a.y * b.y + a.z * b.z), a.r * b.x + b.r * a.x + (a.y * b.z - a.z * b.y), a.r * b.y + b.r * a.y + (a.z * b.x - a.x * b.z), a.r * b.z + b.r * a.z + (a.x * b.y - a.y * b.x)}; }
+static Q qnorm (Q a) { double l = std::sqrt (a.r * a.r + a.x * a.x + a.y * a.y + a.z * a.z); return l > 0 ? Q{a.r / l, a.x / l, a.y / l, a.z / l} : a; }
+static Q unitQ (Rng& g)
+{
+    switch (g () % 6)
+    {
+        case 0: return Q{1, 0, 0, 0};
+        case 1: return Q{0, 1, 0, 0};
+        case 2: return Q{-1, 0, 0, 0};
+        case 3: return qnorm (Q{1, 1e-9 * U (g), 1e-9 * U (g), 1e-9 * U (g)});
+        default: return qnorm (Q{U (g), U (g), U (g), U (g)});
+    }
+}
+static Q rot (Rng& g, double th)
+{
+    Q d = qnorm (Q{0, U (g), U (g), U (g)});
+    return Q{std::cos (th), d.x * std::sin (th), d.y * std::sin (th), d.z * std::sin (th)};
+}
+static double theta (Rng& g)
+{
+    // around sqrt (epsilon) of both element types (float 3.45e-4, double 1.49e-8): a tiny with 2a / 1.1a not tiny, a not tiny with a/2 tiny
+    static const double th[] = {0, 1e-9, 1e-5, 1e-3, 3e-4, 0.7, 2.0, 3.14159, 1e-12, 1.5707963267948966, 3.3e-4, 5e-4, 1.4e-8, 2e-8, 1e-8, 3.0};
+    return th[g () % 16];
+}
+static double param (Rng& g)
+{
+    static const double ts[] = {0, 1e-9, 0.5, 1, 1 - 1e-9, 2, -0.1, 1e5, 1e-4, 0.25, -1e5, 1.1};
+    return ts[g () % 12];
+}
+template <class T> static void push (std::vector<T>& in, const Q& q) { in.push_back ((T) q.r); in.push_back ((T) q.x); in.push_back ((T) q.y); in.push_back ((T) q.z); }
+// second quaternion relative to the first: equal (bitwise), step theta, exactly antipodal, zero
+static Q second (Rng& g, const Q& q1)
+{
+    switch (g () % 8)
+    {
+        case 0: return q1;
+        case 1: return Q{-q1.r, -q1.x, -q1.y, -q1.z};
+        case 2: return Q{0, 0, 0, 0};
+        default: return qnorm (qmul (q1, rot (g, theta (g))));
+    }
+}
+template <class T> struct Gen
+{
+    static std::vector<T> slerp (Rng& g, bool same)
+    {
+        std::vector<T> in;
+        Q q1 = (g () % 9 == 0) ? Q{0, 0, 0, 0} : unitQ (g);
+        push (in, q1);
+        Q q2 = second (g, q1);
+        if (!same) push (in, q2);
+        double t = param (g);
+        // zero-length combination on the mixed leaves: q1 = 0 with t = 0, q2 = 0 with t = 1
+        if (!same && q1.r == 0 && q1.x == 0 && q1.y == 0 && q1.z == 0 && g () % 2) t = 0;
+        if (!same && q2.r == 0 && q2.x == 0 && q2.y == 0 && q2.z == 0 && g () % 2) t = 1;
+        in.push_back ((T) t);
+        return in;
+    }
+    static std::vector<T> intermediate (Rng& g)
+    {
+        std::vector<T> in;
+        Q q1 = (g () % 12 == 0) ? Q{0, 0, 0, 0} : unitQ (g);
+        Q q0, q2;
+        switch (g () % 6)
+        {
+            case 0: q0 = q1; q2 = q1; if (g () % 2) { Q d = rot (g, 3.0); q0 = q2 = qmul (q1, d); } break; // both logs at theta == 0, exp at 0 / both steps ~pi the same way: |P| >= 1
+            case 1: { Q d = rot (g, theta (g)); q0 = qmul (q1, d); q2 = qmul (q1, Q{d.r, -d.x, -d.y, -d.z}); } break; // mirrored: the logs cancel
+            case 2: q0 = q1; q2 = second (g, q1); break;
+            case 3: q0 = second (g, q1); q2 = q1; break;
+            default: q0 = second (g, q1); q2 = second (g, q1); break;
+        }
+        push (in, q0); push (in, q1); push (in, q2);
+        return in;
+    }
+    static std::vector<T> log (Rng& g)
+    {
+        std::vector<T> in;
+        switch (g () % 7)
+        {
+            case 0: push (in, Q{1, U (g), U (g), U (g)}); break;        // r == 1 exactly (theta == 0), any v
+            case 1: push (in, Q{1.5, U (g), 0, 0}); break;              // r > 1: min (r, 1)
+            case 2: push (in, Q{-1, 1e-9 * U (g), 0, 0}); break;        // theta = pi (rounded)
+            case 3: push (in, Q{0, 1, 0, 0}); break;                    // |sin theta| == 1
+            case 4: push (in, qnorm (Q{1, 1e-5 * U (g), 1e-5 * U (g), 0})); break;
+            default: push (in, unitQ (g)); break;
+        }
+        return in;
+    }
+    static std::vector<T> exp (Rng& g)
+    {
+        std::vector<T> in;
+        double sc;
+        switch (g () % 7)
+        {
+            case 0: sc = 0; break;
+            case 1: sc = (double) std::numeric_limits<T>::denorm_min () * 3; break;
+            case 2: sc = (double) std::numeric_limits<T>::min () * 0.75; break;   // squares underflow: lengthTiny
+            case 3: sc = 1e-9; break;
+            case 4: sc = 2.5; break;                                               // |theta| >= 1
+            default: sc = 0.8; break;
+        }
+        push (in, Q{U (g), sc * U (g), sc * U (g), sc * U (g)});
+        return in;
+    }
+    static std::vector<T> quatAny (Rng& g)
+    {
+        std::vector<T> in;
+        push (in, g () % 4 == 0 ? Q{0, 0, 0, 0} : g () % 3 == 0 ? unitQ (g) : Q{U (g) * 10, U (g), U (g), U (g)});
+        return in;
+    }
+};
+struct Row { const char* name; long evals = 0, bad = 0; std::set<size_t> hit; };
+template <class T, class G> static void run (Row& row, void (*body) (Ctx<T>&), unsigned long seed, int n, G gen)
+{
+    auto fi = fnIndex ().find (row.name);
+    if (fi == fnIndex ().end ()) return;
+    Rng g (seed);
+    for (int k = 0; k < n; ++k)
+    {
+        std::vector<T> in = gen (g);
+        std::string d;
+        size_t leaf = (size_t) -1;
+        ++row.evals;
+        bool ok = tvOne<T> (*fi->second, body, in, d, &leaf);
+        if (leaf != (size_t) -1) row.hit.insert (leaf);
+        if (!ok)
+        {
+            ++row.bad;
+            printf ("TVFAIL %s %s :: %s :: in=", sizeof (T) == 4 ? "float" : "double", row.name, d.c_str ());
+            for (auto& x : in) printf ("%.17g ", (double) x);
+            printf ("\n");
+        }
+    }
+}
+#define C10DIR(NAME, IDENT, GEN)                                                                     \
+    {                                                                                                 \
+        Row row; row.name = NAME;                                                                     \
+        run<double> (row, &X_##IDENT::run<double>, seed * 31 + 1, n, [] (Rng& g) { return Gen<double>::GEN; }); \
+        run<float> (row, &X_##IDENT::run<float>, seed * 31 + 2, n, [] (Rng& g) { return Gen<float>::GEN; });   \
+        printf ("TVDIR %s evals=%ld failures=%ld leaves_hit=%zu paths=%zu\n", NAME, row.evals, row.bad, row.hit.size (), fnIndex ()[NAME]->paths.size ()); \
+        if (getenv ("C10DIR_DEBUG")) for (size_t L = 0; L < fnIndex ()[NAME]->paths.size (); ++L) { printf ("  leaf %zu %s:", L, row.hit.count (L) ? "HIT " : "miss"); for (auto& c : fnIndex ()[NAME]->paths[L].conds) printf (" %d", (int) c.second); printf ("\n"); } \
+        bad += row.bad;                                                                               \
+    }
+static int main_ (unsigned long seed, int n)
+{
+    long bad = 0;
+    C10DIR ("C10.Quat.slerp", q_slerp, slerp (g, false))
+    C10DIR ("C10.Quat.slerpShortestArc", q_slerpShortestArc, slerp (g, false))
+    C10DIR ("C10.Quat.slerpSame", q_slerpSame, slerp (g, true))
+    C10DIR ("C10.Quat.intermediate", q_intermediate, intermediate (g))
+    C10DIR ("C10.Quat.log", q_log, log (g))
+    C10DIR ("C10.Quat.exp", q_exp, exp (g))
+    C10DIR ("C10.Quat.normalize", q_normalize, quatAny (g))
+    C10DIR ("C10.Quat.normalized", q_normalized, quatAny (g))
+    C10DIR ("C10.Quat.axis", q_axis, quatAny (g))
+    return bad ? 1 : 0;
+}
+} // namespace c10dir
 int main (int argc, char** argv)
 {
+    if (argc > 1 && std::string (argv[1]) == "tvdir")
+    {
+        std::vector<char*> av (argv, argv + argc);
+        av[1] = (char*) "quiet";
+        symns::sym_main ((int) av.size (), av.data ()); // unknown mode: explores the entries (fills fnIndex), prints nothing
+        return c10dir::main_ (argc > 2 ? strtoul (argv[2], 0, 10) : 1, argc > 3 ? atoi (argv[3]) : 1500);
+    }
     int rc = symns::sym_main (argc, argv);
     // intermediate (96 paths) never survives the generic rattv generator: hand-picked sparse keys, see c10extra.h
     if (argc > 1 && std::string (argv[1]) == "rattv") symns::c10ExtraRatCases ("C10.Quat.intermediate", 3, false, argc > 2 ? strtoul (argv[2], 0, 10) : 1, argc > 3 ? atoi (argv[3]) : 3);
